@@ -212,6 +212,28 @@ def run_item(item, imm):
             z = datetime.timezone(datetime.timedelta(hours=off, minutes=rng.choice([0, 0, 30, 45]) if -12 < off < 14 else 0))
             pv = (tm.convert(datetime.time(h, 30, 15, 250000, tzinfo=z)).isoformat(), dt.convert(datetime.datetime(y, mo, d, h, 30, 15, tzinfo=z)).isoformat())
             out.append((text, v.isoformat(), dt.unconvert(v), tm.unconvert(tm.convert(text[8:])), str(dec.convert(f"{rng.randint(0, 10**6)},5")), pv))
+        # the same decimal texts and values under the arithmetic context the calling thread happens to have: an application that
+        # works with few digits and without traps (decimal.ExtendedContext-like) must get what everybody else gets
+        import decimal as _d
+        texts = [f"{rng.randint(0, 10**6)},5", f"-{rng.randint(1, 999)},{rng.randint(0, 99):02d}", "12345678901234567890,12", "0.10", "+7."]
+
+        def amounts():
+            free = T.Decimal()
+            res = []
+            for t in texts:
+                for conv in (dec, free):
+                    try:
+                        val = conv.convert(t)
+                        res.append((t, str(val), conv.unconvert(val)))
+                    except Exception as e:
+                        res.append((t, "raised", type(e).__name__))
+            return res
+
+        plain = amounts()
+        with _d.localcontext(_d.Context(prec=5, traps=[])):
+            odd = amounts()
+        imm.check("result-depends-on-the-threads-arithmetic-context", plain, odd, item)
+        out.append(plain)
         return fp(out)
     if kind == "edgedate":
         from ofxtools import Types as T
